@@ -71,7 +71,7 @@ func (p *Program) indexDecls() {
 					if obj == nil {
 						continue
 					}
-					fi := &FuncInfo{Pkg: pk, Decl: fd, Obj: obj, Name: QualName(obj), File: f}
+					fi := &FuncInfo{Pkg: pk, Decl: fd, Obj: obj, Name: QualName(obj), File: f, Prog: p}
 					p.decls[fi.Name] = fi
 					p.declList = append(p.declList, fi)
 				}
